@@ -492,8 +492,28 @@ func (b *viewBuilder) prune() {
 		}
 		return false
 	}
+	// a whiteout node that a symlink of the view points at (directly or through further links)
+	// counts as the target of a required symlink and stays
+	kept := map[string]bool{}
+	for _, p := range sortedKeys(b.nodes) {
+		if b.nodes[p].Kind != "l" {
+			continue
+		}
+		t := b.nodes[p].Target
+		for hops := 0; hops < 6; hops++ {
+			if _, occupied := b.nodes[t]; !occupied && b.tombs[t] {
+				kept[t] = true
+				break
+			}
+			n, ok := b.nodes[t]
+			if !ok || n.Kind != "l" {
+				break
+			}
+			t = n.Target
+		}
+	}
 	for _, t := range sortedKeys(b.tombs) {
-		if _, occupied := b.nodes[t]; occupied || !tree[t] {
+		if _, occupied := b.nodes[t]; occupied || !tree[t] || kept[t] {
 			continue
 		}
 		if depth(t) < 2 {
@@ -614,23 +634,35 @@ func mismatchKinds(ms []Mismatch) string {
 	return strings.Join(ks, "+")
 }
 
-// subsets of AllDeviations in order of size, then position.
+// subsets of AllDeviations in search order: by size, then position; subsets that need
+// absolute-name-dropped (fixed in the repository) only after all others.
 func devSubsets() []DevSet {
 	n := len(AllDeviations)
 	type ms struct {
 		mask, bits int
+		abs        bool
 	}
 	var all []ms
 	for m := 1; m < 1<<n; m++ {
 		c := 0
+		x := ms{mask: m}
 		for i := 0; i < n; i++ {
 			if m&(1<<i) != 0 {
 				c++
+				if AllDeviations[i] == DevAbs {
+					x.abs = true
+				}
 			}
 		}
-		all = append(all, ms{m, c})
+		x.bits = c
+		all = append(all, x)
 	}
-	sort.SliceStable(all, func(i, j int) bool { return all[i].bits < all[j].bits })
+	sort.SliceStable(all, func(i, j int) bool {
+		if all[i].abs != all[j].abs {
+			return !all[i].abs
+		}
+		return all[i].bits < all[j].bits
+	})
 	var out []DevSet
 	for _, x := range all {
 		d := DevSet{}
